@@ -120,8 +120,8 @@ func (t *Term) renderTo(sb *strings.Builder, depth, limit int) {
 	sb.WriteString(")")
 }
 
-func IntC(i int64) *Term       { return mk(&Term{Op: "int", I: big.NewInt(i), Sort: SInt}) }
-func IntB(i *big.Int) *Term    { return mk(&Term{Op: "int", I: new(big.Int).Set(i), Sort: SInt}) }
+func IntC(i int64) *Term    { return mk(&Term{Op: "int", I: big.NewInt(i), Sort: SInt}) }
+func IntB(i *big.Int) *Term { return mk(&Term{Op: "int", I: new(big.Int).Set(i), Sort: SInt}) }
 func BoolC(b bool) *Term {
 	if b {
 		return TTrue
